@@ -21,6 +21,10 @@ type (
 	VerifTimeoutInfo = timeoutInfo
 )
 
+// VerifSetMsgQueueSize sets the capacity of the three message queues of consensus states created afterwards (the
+// production value 1000 only matters for a running receive routine; the explorer drains the queues after every step).
+func VerifSetMsgQueueSize(n int) { msgQueueSize = n }
+
 // VerifHandleMsg is what receiveRoutine does for one peer/internal message (minus the WAL write).
 func (cs *ConsensusState) VerifHandleMsg(mi msgInfo) { cs.handleMsg(mi) }
 
